@@ -134,6 +134,11 @@ def _pad_stub(arr, pad_width, mode, **opts):
     m = n + 2 * w
     if mode == 'median' and opts == {'stat_length': 1}:
         return SArr((m,), lambda p: z3.If(p < w, a(z3.IntVal(0)), z3.If(p >= w + n, a(n - 1), a(p - w))), arr.kind)
+    if mode == 'median' and 'stat_length' not in opts and not opts:
+        # numpy's default: the median over the WHOLE vector (an uninterpreted value here) on both sides - not the rule of this library,
+        # but a well-defined numpy call: modelled, so that a call site that loses its options is refuted rather than left undecided
+        med = c.fresh('median_of_the_whole_vector', core.SORT[arr.kind] if arr.kind != 'i' else R)
+        return SArr((m,), lambda p: z3.If(z3.Or(p < w, p >= w + n), med, core.to_real(a(p - w)) if arr.kind == 'i' else a(p - w)), 'f' if arr.kind == 'i' else arr.kind)
     if mode == 'reflect' and opts == {'reflect_type': 'odd'}:
         Rf = c.fresh_fun('padded', I, core.SORT[arr.kind])
         p, q = z3.Ints('pp pq')
@@ -195,6 +200,11 @@ def _loops_gpe():
         ('interior-untouched', lambda e: forall(0, wrap(core.C().ghost['ext'][0]), lambda i: and_(
             SBool(e.ret_max_locs.elem(off(e) + lift(i)) == core.C().ghost['ext'][1](lift(i))),
             SBool(e.ret_max_ext.elem(off(e) + lift(i)) == _sgn(e) * core.C().ghost['ext'][2](lift(i)))))),
+        # default magnitude rule (median over the one nearest extremum): every added extremum, of every padding round, carries the magnitude of
+        # the first / last detected one
+        ('added-magnitudes-are-the-edge-magnitudes', lambda e: and_(
+            forall(0, wrap(off(e)), lambda q: SBool(e.ret_max_ext.elem(lift(q)) == _sgn(e) * core.C().ghost['ext'][2](z3.IntVal(0)))),
+            forall(wrap(off(e) + core.C().ghost['ext'][0]), e.ret_max_ext.shape[0], lambda q: SBool(e.ret_max_ext.elem(lift(q)) == _sgn(e) * core.C().ghost['ext'][2](core.C().ghost['ext'][0] - 1))))),
     ]
     return {0: {'inv': inv, 'variant': lambda e: wrap(
         z3.If(e.ret_max_locs.elem(e.ret_max_locs.shape_e[0] - 1) < e.X.shape_e[0], e.X.shape_e[0] - e.ret_max_locs.elem(e.ret_max_locs.shape_e[0] - 1), 0) +
@@ -224,6 +234,8 @@ def _post_gpe(mode, w, parabolic):
         c.oblige('post:strictly-ordered-in-time', z3.Implies(z3.And(0 <= p, p < n - 1), locs.elem(p) < locs.elem(p + 1)), 'post')
         c.oblige('post:interior-extrema-unaltered', z3.Implies(z3.And(0 <= i, i < K), z3.And(locs.elem(off + i) == L(i), mags.elem(off + i) == sg * M(i))), 'post')
         c.oblige('post:added-extrema-lie-beyond-both-ends', z3.And(locs.elem(off - 1) < L(0), locs.elem(off + K) > L(K - 1)), 'post')
+        c.oblige('post:added-extrema-carry-the-first-and-last-detected-magnitude', z3.Implies(z3.And(0 <= p, p < n), z3.And(
+            z3.Implies(p < off, mags.elem(p) == sg * M(z3.IntVal(0))), z3.Implies(p >= off + K, mags.elem(p) == sg * M(K - 1)))), 'post')
         zero = z3.IntVal(0) if locs.kind == 'i' else z3.RealVal(0)
         Nn = N if locs.kind == 'i' else z3.ToReal(N)
         # beyond the first sample (index 0) and beyond the last one (index N - 1): the same rule at both ends.  (For integer locations `> N - 1` is
